@@ -29,7 +29,10 @@ Positions == {"select-item", "select-two", "operand-arith", "operand-func", "ope
               \* the reference is made BEFORE the select list defines the alias, the select list is replaced by * afterwards, or the alias arrives late
               "orderby-then-select", "groupby-then-select", "star-after-alias", "late-alias",
               \* argument of an aggregate with the DISTINCT option, of an aggregate with a FILTER, of a window function
-              "operand-count-distinct", "operand-sum-distinct", "operand-window"}
+              "operand-count-distinct", "operand-sum-distinct", "operand-window",
+              \* every argument slot of functions with their own rendering: CONCAT (3 args), SUBSTRING, CAST, MIN / AVG / LOWER / LENGTH
+              "operand-concat-first", "operand-concat-last", "operand-substring", "operand-cast", "operand-min", "operand-avg", "operand-lower", "operand-length",
+              "operand-window-partition", "operand-window-order", "operand-in-item", "operand-between-bound", "operand-isnull", "operand-neg", "operand-not"}
 
 Sel(ts) == [m |-> "select", terms |-> ts]
 Outer(t) == WithAl(t, "alx")
@@ -59,6 +62,21 @@ Program(t, p) ==
       [] p = "orderby-ref" -> <<from, Sel(<<t>>), [m |-> "orderby", terms |-> <<t>>, dir |-> ""]>>
       [] p = "operand-count-distinct" -> <<from, Sel(<<Outer([k |-> "call", f |-> "COUNT", args |-> <<t>>, dist |-> TRUE])>>)>>
       [] p = "operand-sum-distinct" -> <<from, Sel(<<Outer([k |-> "call", f |-> "SUM", args |-> <<t>>, dist |-> TRUE])>>)>>
+      [] p = "operand-concat-first" -> <<from, Sel(<<Outer([k |-> "call", f |-> "CONCAT", args |-> <<t, [k |-> "str", n |-> "-"], Fld("T1", "c")>>])>>)>>
+      [] p = "operand-concat-last" -> <<from, Sel(<<Outer([k |-> "call", f |-> "CONCAT", args |-> <<Fld("T1", "c"), [k |-> "str", n |-> "-"], t>>])>>)>>
+      [] p = "operand-substring" -> <<from, Sel(<<Outer([k |-> "call", f |-> "SUBSTRING", args |-> <<t, Num("1"), Num("2")>>])>>)>>
+      [] p = "operand-cast" -> <<from, Sel(<<Outer([k |-> "call", f |-> "CAST_INT", args |-> <<t>>])>>)>>
+      [] p = "operand-min" -> <<from, Sel(<<Outer([k |-> "call", f |-> "MIN", args |-> <<t>>])>>)>>
+      [] p = "operand-avg" -> <<from, Sel(<<Outer([k |-> "call", f |-> "AVG", args |-> <<t>>])>>)>>
+      [] p = "operand-lower" -> <<from, Sel(<<Outer([k |-> "call", f |-> "LOWER", args |-> <<t>>])>>)>>
+      [] p = "operand-length" -> <<from, Sel(<<Outer([k |-> "call", f |-> "LENGTH", args |-> <<t>>])>>)>>
+      [] p = "operand-window-partition" -> <<from, Sel(<<Outer([k |-> "win", f |-> "SUM", args |-> <<Fld("T1", "c")>>, part |-> <<t>>, ord |-> <<>>])>>)>>
+      [] p = "operand-window-order" -> <<from, Sel(<<Outer([k |-> "win", f |-> "SUM", args |-> <<Fld("T1", "c")>>, part |-> <<>>, ord |-> <<t>>])>>)>>
+      [] p = "operand-in-item" -> <<from, Sel(<<Outer([k |-> "in", a |-> Fld("T1", "c"), items |-> <<Num("1"), t>>])>>)>>
+      [] p = "operand-between-bound" -> <<from, Sel(<<Outer([k |-> "between", a |-> Fld("T1", "c"), lo |-> Num("1"), hi |-> t])>>)>>
+      [] p = "operand-isnull" -> <<from, Sel(<<Outer([k |-> "isnull", a |-> t])>>)>>
+      [] p = "operand-neg" -> <<from, Sel(<<Outer([k |-> "neg", a |-> t])>>)>>
+      [] p = "operand-not" -> <<from, Sel(<<Outer([k |-> "not", a |-> t])>>)>>
       [] p = "operand-window" -> <<from, Sel(<<Outer([k |-> "win", f |-> "SUM", args |-> <<t>>, part |-> <<Fld("T1", "c")>>, ord |-> <<>>])>>)>>
       [] p = "orderby-then-select" -> <<from, [m |-> "orderby", terms |-> <<t>>, dir |-> ""], Sel(<<t>>)>>
       [] p = "groupby-then-select" -> <<from, [m |-> "groupby", terms |-> <<t>>], Sel(<<t>>)>>
